@@ -1,6 +1,6 @@
 (* C32 - Crashes never leave files that later builds trust wrongly.
    This file holds only the statement, the property theorems and their non-vacuity examples. *)
-From PlzV Require Import Base.Harness Model.C32 Proof.C32 Proof.C32_Order Gen.C32Order.
+From PlzV Require Import Base.Harness Model.C32 Model.C32_Tmp Proof.C32 Proof.C32_Order Proof.C32_Tmp Gen.C32Order.
 
 (* "If plz is killed at any moment during a build, the next `plz build` of the same tree produces outputs
    identical to a clean build.  Partially written outputs, metadata or hash records are never taken as up to date."
@@ -49,7 +49,78 @@ Theorem C32_source_order :
 Proof. exact source_order. Qed.
 Print Assumptions C32_source_order.
 
+(* ------------------------------------------------------------------------------------------ *)
+(* The work directory plz-out/tmp/<target>._build (state that survives a kill) and the build command.
+
+   The statement above takes what the command produces (b_new) as given and the same in the killed build, the
+   recovery and the clean build.  Here that is derived: the command is a program of a closed language of
+   leftover-sensitive shell commands (>> append, mkdir without -p, [ -e x ] || ...) run in the work directory as the
+   build finds it; the build is [prepareDirectory (wipe under its condition, mkdir); command; the persistent steps
+   of the statement above; clean-up], and it can be killed after ANY number of these steps.
+
+   For every command, every sources, every target shape, every initial content of the work directory (absent, not a
+   directory, a directory with anything in it), every trusted initial plz-out and every history of builds (normal
+   or --rebuild) each killed after any number of steps: the next normal build succeeds and leaves exactly the
+   outputs of the clean build (empty plz-out, no work directory), with complete metadata.  The only hypothesis on
+   the command is that the CLEAN build succeeds. *)
+Definition C32_tmp_statement : Prop :=
+  forall (srcs : list (name * str)) (cid : str -> content) (cmd : list cstep) (t : target) (dirouts : list name) (cur : rec)
+         (T0 : tdir) (s0 : st) (evs : list event),
+    let B := bld_of wipe_cond srcs cid cmd dirouts cur TAbsent false in
+    cmd_ok wipe_cond srcs cmd (all_outs t B) TAbsent = true ->
+    trusted t B s0 ->
+    exists x', xrecover wipe_cond srcs cid cmd t dirouts cur (xafter wipe_cond srcs cid cmd t dirouts cur evs (T0, s0)) = Some x'
+               /\ visible t B (snd x') = visible t B (xclean wipe_cond srcs cid cmd t dirouts cur)
+               /\ md_full t B (snd x') = true.
+
+Theorem C32_tmp_full : C32_tmp_statement.
+Proof. exact (fun srcs cid cmd t dirouts cur T0 s0 evs Hok Htr => tmp_histories_full srcs cid cmd t dirouts cur Hok T0 s0 evs Htr). Qed.
+Print Assumptions C32_tmp_full.
+
+(* the work directory on its own: after ANY history of builds killed at any step of [prepare; command], from ANY
+   initial content, the next build's prepare step leaves the empty directory, its command runs exactly as in a
+   fresh directory, and the build leaves what the clean build leaves (or fails exactly when the clean build fails) *)
+Theorem C32_tmp_next_build : forall srcs cmd outs ks T0,
+  let T := tafter srcs cmd ks T0 in
+  trun wipe_cond srcs prep_steps (start T) = start (TDir [])
+  /\ after_cmd wipe_cond srcs cmd T = trun wipe_cond srcs (map TCmd cmd) (start (TDir []))
+  /\ produced wipe_cond srcs cmd outs T = produced wipe_cond srcs cmd outs TAbsent.
+Proof. exact tmp_next_build. Qed.
+Print Assumptions C32_tmp_next_build.
+
+(* the prepare steps and the wipe condition are those of the source (Gen/C32Order.v, regenerated on every run):
+   prepareDirectory = RemoveAll under `remove`, MkdirAll (+ retry); prepareDirectories wipes the work directory
+   (remove = true); buildTarget prepares, runs the command, stores, moves, records, cleans up - in this order *)
+Theorem C32_tmp_source :
+  flat_map tstep_of_prep C32Order.prepare_directory = prep_steps
+  /\ (forall remove is_directory, C32Order.prepare_wipe_cond remove is_directory = wipe_cond remove is_directory)
+  /\ C32Order.prepare_directories =
+       [("prepareDirectory", "target.TmpDir(), true"); ("prepareOutputDirectories", "target"); ("prepareDirectory", "target.OutDir(), false")]
+  /\ C32Order.build_target_tmp =
+       ["prepareDirectories"; "prepareSources"; "build"; "StoreTargetMetadata"; "moveOutputs"; "calculateAndCheckRuleHash"; "fs.RemoveAll(target.TmpDir())"].
+Proof. exact tmp_source_order. Qed.
+Print Assumptions C32_tmp_source.
+
 (* Non-vacuity. *)
+
+(* the hypotheses of C32_tmp_full hold for the append command (cat a >> acc; cat b >> acc; cat acc > out) with the
+   empty plz-out; a build killed after its first append leaves acc = "alpha" behind; the next build still ends
+   with "alphabeta".  With the wipe condition of the seeded mutation m3 (`remove && !fs.IsDirectory(directory)`)
+   the same history ends with "alphaalphabeta": the theorem is about the wipe. *)
+Example C32_tmp_nonvacuous :
+  let t := mkT [s "out"] false in
+  let B := bld_of wipe_cond w_srcs (fun c => N.of_nat (length c)) w_cmd [] wcur TAbsent false in
+  cmd_ok wipe_cond w_srcs w_cmd (all_outs t B) TAbsent = true
+  /\ trusted t B empty_st
+  /\ fst (xafter wipe_cond w_srcs (fun c => N.of_nat (length c)) w_cmd t [] wcur [(false, 3)] (TAbsent, empty_st))
+     = TDir [(s "acc", NFile (s "alpha"))]
+  /\ produced wipe_m3 w_srcs w_cmd [s "out"] (tcrash wipe_m3 w_srcs w_cmd 3 TAbsent) = Some [(s "out", s "alphaalphabeta")]
+  /\ produced wipe_cond w_srcs w_cmd [s "out"] (tcrash wipe_cond w_srcs w_cmd 3 TAbsent) = Some [(s "out", s "alphabeta")].
+Proof.
+  cbn zeta. split; [vm_compute; reflexivity|]. split; [apply trusted_empty|].
+  split; [vm_compute; reflexivity|]. split; [apply wipe_needed|apply wipe_needed].
+Qed.
+
 
 (* the hypothesis holds of the empty plz-out (first build) and of a completed build; the histories that violated
    the statement before the fix of StoreTargetMetadata (forced rebuild killed after 2 steps; kills after 8 and
